@@ -334,8 +334,19 @@ func checkCmd(opts *RunOpts, args []string) int {
 			if ob.Kind == "vacuity" {
 				nVac++
 				if ob.Status == "vacuous" {
-					fmt.Printf("SELFTEST-FAIL property=%s %s: contract hypotheses are contradictory\n", prop, ob.Name)
-					return 3
+					// an obligation that failed earlier in the same function is assumed
+					// afterwards (assert-then-assume), which by itself can make the rest of
+					// the path unreachable: that is a violation to report, not a broken contract
+					failedBefore := false
+					for _, o2 := range res.Obls {
+						if o2.Kind != "vacuity" && o2.Status != "proved" {
+							failedBefore = true
+						}
+					}
+					if !failedBefore {
+						fmt.Printf("SELFTEST-FAIL property=%s %s: contract hypotheses are contradictory\n", prop, ob.Name)
+						return 3
+					}
 				}
 				continue
 			}
